@@ -11,7 +11,7 @@ EXTENDS DataModel
 \* harness/universe_check.py: the table below must agree with bridge.str_attrs)
 UStrAttr ==
   [s \in {"", "a", "ab", "abc", "b", "1", "2", "07", "1.5", "true", "YES", "no", "x", "zz", "z9",
-          "bb", "A", "c", "d", "kind", "0", "-1", "x_y", "3", "4", "6", "7"} |->
+          "bb", "A", "c", "d", "kind", "0", "-1", "x_y", "3", "4", "6", "7", "ZZ", "R", "r"} |->
     CASE s = "1"    -> [int |-> <<"y", 1>>,  float |-> <<"y", 2>>,  boolw |-> "t",    pats |-> <<"pnum">>]
       [] s = "2"    -> [int |-> <<"y", 2>>,  float |-> <<"y", 4>>,  boolw |-> "none", pats |-> <<"pnum">>]
       [] s = "0"    -> [int |-> <<"y", 0>>,  float |-> <<"y", 0>>,  boolw |-> "f",    pats |-> <<"pnum">>]
@@ -50,7 +50,8 @@ TUndef == TPrim("undef")
 UEnums ==
   [EI |-> << <<"ONE", DInt(1)>>, <<"TWO", DInt(2)>> >>,
    ES |-> << <<"A", DStr("a")>>, <<"B", DStr("b")>> >>,
-   EM |-> << <<"X", DInt(1)>>, <<"Y", DStr("a")>> >>]
+   EM |-> << <<"X", DInt(1)>>, <<"Y", DStr("a")>> >>,
+   E1 |-> << <<"ONLY", DInt(7)>> >>]
 
 \* hand-listed class tables: each class exercises one or two object features
 UClasses ==
@@ -106,6 +107,11 @@ UClasses ==
    \* an InitVar (write-only) field whose type is a class
    RO   |-> Cls("dataclass", << F("a", TInt), [FD("back", TOpt(TObj("RO")), DNull) EXCEPT !.kind = "ro"] >>),
    IVN  |-> Cls("dataclass", << F("a", TInt), [F("w", TObj("P1")) EXCEPT !.kind = "wo"], FD("e", TEnum("ES"), VEnum("ES", "A")) >>),
+   \* a REQUIRED Optional field (exclude_none applies to it too)
+   OR   |-> Cls("dataclass", << F("r", TOpt(TInt)), FD("d", TOpt(TStr), DNull) >>),
+   \* a regular field whose external name matches the pattern of a pattern-properties field
+   PM   |-> Cls("dataclass", << [F("a", TStr) EXCEPT !.alias = "zz"],
+                                [FD("z", TMap(TStr, TInt), VDict(<<>>)) EXCEPT !.props = "pat", !.pat = "pz", !.dk = "fac"] >>),
    UF   |-> Cls("dataclass", << F("u", TUnion(<<TInt, TEnum("ES")>>)), FD("l", TUnion(<<TEnum("EI"), TStr>>), DStr("s")) >>),
    EF   |-> Cls("dataclass", << F("e", TEnum("EI")), FD("l", TLit(<<DStr("a"), DInt(2)>>), DStr("a")) >>)]
 
@@ -118,7 +124,7 @@ UAliasers ==
                 <<"l", "L">>, <<"s", "S">>, <<"x", "X">>, <<"z", "Z">>, <<"o", "O">>, <<"p", "P">>,
                 <<"f", "F">>, <<"w", "W">>, <<"t", "T">>, <<"u", "U">>, <<"type", "TYPE">>, <<"kind", "KIND">>,
                 <<"m1", "M1">>, <<"mm", "MM">>, <<"m3", "M3">>, <<"m4", "M4">>, <<"n", "N">>, <<"knd", "KND">>,
-                <<"Foo", "FOO">>, <<"bar", "BAR">>, <<"foo", "FOO2">> >>]
+                <<"Foo", "FOO">>, <<"bar", "BAR">>, <<"foo", "FOO2">>, <<"r", "R">>, <<"zz", "ZZ">>, <<"back", "BACK">> >>]
 
 Opt(addl, fbd, coerce, ali) == [addl |-> addl, fbd |-> fbd, coerce |-> coerce, ali |-> UAliasers[ali], aliname |-> ali,
                                 impl |-> FALSE, dev |-> {}, setuniq |-> FALSE]
@@ -128,6 +134,7 @@ Ctx(O) == [C |-> UClasses, En |-> UEnums, O |-> O, S |-> UStrAttr]
 Leaves ==
   { TNone, TBool, TInt, TFloat, TStr, TAny,
     TLit(<<DInt(1), DInt(2)>>), TLit(<<DStr("a"), DStr("b")>>), TLit(<<DInt(1), DStr("a")>>),
+    TLit(<<DStr("a")>>), TEnum("E1"),            \* single-valued: the schema uses `const`
     TEnum("EI"), TEnum("ES"), TEnum("EM"),
     TNew("NI", TInt),
     TAnnot(TInt,   << <<"min", 2>>, <<"max", 6>> >>),
@@ -235,8 +242,9 @@ RECURSIVE Cand(_, _, _)
 \* candidate data for T; n = remaining nesting budget (wide at the top, narrow below)
 Cand(ctx, T, n) ==
   LET W == IF n >= 2 THEN 3 ELSE 2       \* candidates kept per nested position
+      \* always a conforming value when one exists: PickSome alone may keep only rejected candidates
       sub(t) == IF n = 0 THEN PickSome(ValidAtoms(ctx, t), 1) \cup PickSome(InvalidAtoms(ctx, t), 1)
-                ELSE PickSome(Cand(ctx, t, n - 1), 2 * W)
+                ELSE PickSome(ValidAtoms(ctx, t), 1) \cup PickSome(Cand(ctx, t, n - 1), 2 * W)
       flatKeysOf(cls) == FlatAliases(ctx, cls)
   IN
   CASE T.k \in {"prim", "any", "lit", "enum"} ->
